@@ -116,7 +116,81 @@ func sortedKeys(m map[string]bool) []string {
 	return out
 }
 
+// optRec / optDeep carry a probe value into the second level of a recursive type / four structs deep
+type optRec struct {
+	V    interface{}
+	Next *optRec
+}
+type optD3 struct{ V interface{} }
+type optD2 struct{ C optD3 }
+type optD1 struct{ B optD2 }
+type optD0 struct{ A optD1 }
+
+func probeValue(probe string) interface{} {
+	switch probe {
+	case "plain_struct":
+		return encProbeStruct{7, "x"}
+	case "str_html":
+		return map[string]string{"k<": "<a>& "}
+	case "map3":
+		return map[string]int{"x": 1, "k": 2, "a": 3, "b": 4, "zz": 5, "m": 6}
+	case "mjws":
+		return struct{ M MJWS }{}
+	case "mtn":
+		return []interface{}{MTN{}, "12"}
+	case "nil_slice":
+		return struct {
+			S []int
+			T []int
+		}{nil, []int{}}
+	case "nil_map":
+		return struct {
+			M map[string]int
+			N map[string]int
+		}{nil, map[string]int{}}
+	case "nan":
+		return []float64{1.5, math.NaN(), math.Inf(-1)}
+	case "str_badutf8":
+		return "a\xffb"
+	case "mjbad":
+		return []interface{}{1, MJBad{}}
+	}
+	return nil
+}
+
 func runProbe(probe string, on map[string]bool) (res probeRes) {
+	if strings.HasPrefix(probe, "rec:") || strings.HasPrefix(probe, "deep:") {
+		base := probe[strings.IndexByte(probe, ':')+1:]
+		var v interface{}
+		var pre, suf string
+		if strings.HasPrefix(probe, "rec:") {
+			v, pre, suf = optRec{V: 0, Next: &optRec{V: probeValue(base)}}, `{"V":0,"Next":{"V":`, `,"Next":null}}`
+		} else {
+			v, pre, suf = optD0{optD1{optD2{optD3{probeValue(base)}}}}, `{"A":{"B":{"C":{"V":`, `}}}}`
+		}
+		b, err := func() (b []byte, err error) {
+			defer func() {
+				if r := recover(); r != nil {
+					err = fmt.Errorf("panic: %v", r)
+				}
+			}()
+			return configOf(on).Froze().Marshal(v)
+		}()
+		if err != nil {
+			return probeRes{err: true}
+		}
+		t := string(b)
+		if !strings.HasPrefix(t, pre) || !strings.HasSuffix(t, suf) {
+			return probeRes{text: "unexpected wrapper: " + t}
+		}
+		t = t[len(pre) : len(t)-len(suf)]
+		if base == "map3" && !on["SortMapKeys"] {
+			if c, err := canonJSONText([]byte(t), true); err == nil {
+				t = "unordered:" + c
+			}
+		}
+		return probeRes{text: t}
+	}
 	defer func() {
 		if r := recover(); r != nil {
 			res = probeRes{err: true, text: fmt.Sprint("panic: ", r)}
@@ -201,6 +275,9 @@ func runProbe(probe string, on map[string]bool) (res probeRes) {
 
 // lawHolds checks the relation the specification names between the result without and with the switch
 func lawHolds(law string, probe string, off, on probeRes) (bool, string) {
+	if i := strings.IndexByte(probe, ':'); i >= 0 {
+		probe = probe[i+1:]
+	}
 	same := off.err == on.err && off.text == on.text
 	switch law {
 	case "same":
